@@ -41,12 +41,13 @@ import (
 // ---------------------------------------------------------------------------- spec (parent -> child)
 
 type CaseIn struct {
-	Entry  int    `json:"entry"` // 0 getScanRange, 1 ipScanCmdOpts.parseOptions, 2 run the arp command
+	Entry  int    `json:"entry"` // 0 getScanRange, 1 ipScanCmdOpts.parseOptions, 2 run the arp command, 3 run an ip-level command (Cmd)
 	Iface  string `json:"iface"`
 	SrcIP  string `json:"srcip"`
 	SrcMAC string `json:"srcmac"`
 	Target string `json:"target"` // "" = no destination subnet
 	TClass string `json:"tclass"`
+	Cmd    string `json:"cmd,omitempty"` // entry 3: which ip-level command runs ("" = icmp): icmp, udp, tcp, tcp syn, tcp --flags fin,ack, tcp fin, tcp null, tcp xmas
 }
 
 type Spec struct {
